@@ -8,9 +8,24 @@ use crate::imp;
 use crate::rng::Rng;
 use crate::Ctx;
 
+/// every top-level key the generated documents can carry
+const DOC_KEYS: &[&str] = &["id", "ts", "k", "n", "x", "s", "b", "o", "arr", "msg", "m"];
+
 /// (stage text, fields it may add or overwrite; None = "only removes")
 fn stateless_stage(r: &mut Rng) -> (String, Option<Vec<String>>) {
-    match r.below(10) {
+    match r.below(13) {
+        // a second `json` (no `from`: re-reads the line) after other stages: overwrites the
+        // document's own keys only, the fields made by earlier stages stay
+        10 => ("json".to_string(), Some(DOC_KEYS.iter().map(|s| s.to_string()).collect())),
+        11 => {
+            if r.chance(50) {
+                ("json from s".to_string(), Some(vec![]))
+            } else {
+                ("json from msg nodrop".replace(" nodrop", ""), Some(vec![]))
+            }
+        }
+        // logfmt on the message text: adds its pairs (names not known in advance: "*")
+        12 => ("logfmt from msg".to_string(), Some(vec!["*".into(), "GET".into(), "POST".into(), "put".into(), "user".into(), "took".into(), "status".into()])),
         0 | 1 => (format!("where {}", gen::bool_expr(r, 2)), Some(vec![])),
         2 | 3 => {
             let name = r.pick(&["r", "v", "y", "n"]).to_string();
@@ -113,6 +128,14 @@ pub fn check(ctx: &mut Ctx) {
             }
         }
 
+        // F-level
+        let c = run_both(ctx, &q, &ab);
+        match compare(&c, true) {
+            F::Agree => ctx.case("model", &key, "pass", info.clone()),
+            F::Skip(w) => ctx.case("model", "", "skip", serde_json::json!({"why": w.split(':').next().unwrap_or("").to_string()})),
+            F::Disagree(d) => ctx.case("model", &key, "fdis", serde_json::json!({"what": d, "case": info})),
+        }
+
         // frame: compare the last stage's input rows (prefix pipeline) with its output rows, by id
         if mode == "json" {
             if let Some((stage, touched)) = &last {
@@ -120,6 +143,11 @@ pub fn check(ctx: &mut Ctx) {
                 if let (Some(before), Some(after)) = (record_lines(&rp.stdout), record_lines(&rab.stdout)) {
                     let mut bad: Option<String> = None;
                     let id_of = |row: &Vec<(String, J)>| row.iter().find(|kv| kv.0 == "id").map(|kv| kv.1.clone());
+                    if before.iter().any(|b| id_of(b).is_none()) {
+                        // an earlier `fields` removed the id (a later `json` brings it back): rows cannot be matched
+                        ctx.case("frame", "", "skip", serde_json::json!({"why": "input rows of the last stage carry no id"}));
+                        continue;
+                    }
                     for row in &after {
                         let id = match id_of(row) {
                             Some(i) => i,
@@ -148,7 +176,7 @@ pub fn check(ctx: &mut Ctx) {
                                     }
                                 }
                                 for (k, _) in row {
-                                    if !t.contains(k) && !src.iter().any(|kv| &kv.0 == k) {
+                                    if !t.contains(k) && !t.iter().any(|x| x == "*") && !src.iter().any(|kv| &kv.0 == k) {
                                         bad = Some(format!("stage `{}` added unnamed field {}", stage, k));
                                     }
                                 }
@@ -163,13 +191,6 @@ pub fn check(ctx: &mut Ctx) {
             }
         }
 
-        // F-level
-        let c = run_both(ctx, &q, &ab);
-        match compare(&c, true) {
-            F::Agree => ctx.case("model", &key, "pass", info),
-            F::Skip(w) => ctx.case("model", "", "skip", serde_json::json!({"why": w.split(':').next().unwrap_or("").to_string()})),
-            F::Disagree(d) => ctx.case("model", &key, "fdis", serde_json::json!({"what": d, "case": info})),
-        }
     }
 }
 
